@@ -7,6 +7,8 @@
    * step       : one generation of the eaSimple-shaped loop of harness/c17_families.py (family modelga):
                   tools.selTournament -> algorithms.varAnd (tools.cxOnePoint, tools.mutFlipBit) ->
                   toolbox.map(evaluate, invalid) -> HallOfFame.update -> population[:] = offspring ->
+                  (or the (mu+lambda) / (mu,lambda) shapes: algorithms.varOr, evaluation, HallOfFame.update,
+                  selTournament among parents+offspring / offspring) ->
                   Logbook.record of MultiStatistics.compile -> logbook.stream.
                   Every random.* call site consumes one raw draw r in [0, 2^32) of the stream:
                   random() = r / 2^32, randint(a,b) = a + r mod (b-a+1), choice(s) = s[r mod len s].
@@ -130,6 +132,8 @@ Record params := mkparams {
   p_indpb : Z * Z;
   p_weights : list Z;
   p_evkind : Z;
+  p_lambda : nat;           (* varOr loops: number of offspring *)
+  p_mu : nat;               (* varOr loops: number of survivors *)
   p_stream : list Z         (* the recorded raw draws of `random` *)
 }.
 
@@ -204,6 +208,44 @@ Fixpoint mut_loop (P : params) (l : list indiv) (c : Z) : list indiv * Z :=
         let (r', c2) := mut_loop P r c1 in (mkind g' None :: r', c2)
       else
         let (r', c2) := mut_loop P r (c + 1) in (a :: r', c2)
+  end.
+
+(* ------------------------------------------------------------------------------------------ *)
+(* algorithms.varOr with tools.cxOnePoint and tools.mutFlipBit                                *)
+(* ------------------------------------------------------------------------------------------ *)
+(* random.sample(population, 2) of the scripted generator: i = r1 mod n, then j = r2 mod (n-1) over the
+   remaining positions (two distinct positions, two draws) *)
+Definition sample2 (P : params) (pop : list indiv) (c : Z) : indiv * indiv :=
+  let n := zlen pop in
+  let i := draw P c mod n in
+  let j0 := draw P (c + 1) mod (n - 1) in
+  let j := if j0 <? i then j0 else j0 + 1 in
+  (nth (Z.to_nat i) pop dflt_ind, nth (Z.to_nat j) pop dflt_ind).
+
+(* op_choice < cxpb + mutpb, both dyadic *)
+Definition rnd_lt_sum (P : params) (c : Z) (a b : Z * Z) : bool :=
+  draw P c * (snd a * snd b) <? (fst a * snd b + fst b * snd a) * two32.
+
+Fixpoint var_or (P : params) (pop : list indiv) (k : nat) (c : Z) : list indiv * Z :=
+  match k with
+  | O => ([], c)
+  | S k' =>
+      if rnd_lt P c (p_cxpb P) then
+        (* ind1, ind2 = clones of random.sample(population, 2); mate; only ind1 is kept, invalidated *)
+        let (a, b) := sample2 P pop (c + 1) in
+        let size := Z.min (zlen (genome a)) (zlen (genome b)) in
+        let pt := Z.to_nat (1 + draw P (c + 3) mod (size - 1)) in
+        let child := mkind (firstn pt (genome a) ++ skipn pt (genome b)) None in
+        let (r, c') := var_or P pop k' (c + 4) in (child :: r, c')
+      else if rnd_lt_sum P c (p_cxpb P) (p_mutpb P) then
+        (* clone of random.choice(population); mutate; invalidated *)
+        let x := nth (Z.to_nat (draw P (c + 1) mod zlen pop)) pop dflt_ind in
+        let (g', c1) := flip_loop P (genome x) (c + 2) in
+        let (r, c') := var_or P pop k' c1 in (mkind g' None :: r, c')
+      else
+        (* reproduction: clone of random.choice(population), fitness kept *)
+        let x := nth (Z.to_nat (draw P (c + 1) mod zlen pop)) pop dflt_ind in
+        let (r, c') := var_or P pop k' (c + 2) in (x :: r, c')
   end.
 
 (* ------------------------------------------------------------------------------------------ *)
@@ -314,33 +356,56 @@ Definition log_record (lg : logbook) (g nevals : Z) (pop : list indiv) : logbook
 (* ------------------------------------------------------------------------------------------ *)
 (* one generation                                                                             *)
 (* ------------------------------------------------------------------------------------------ *)
-Inductive genop := GInit | GGen (g : Z).
+Inductive genop :=
+| GInit                 (* generation 0: evaluate the initial population, record *)
+| GGen (g : Z)          (* eaSimple-shaped generation *)
+| GPlus (g : Z)         (* eaMuPlusLambda-shaped generation: varOr, select among parents + offspring *)
+| GComma (g : Z).       (* eaMuCommaLambda-shaped generation: varOr, select among offspring *)
 
 (* sch g n : completion order of the n evaluation tasks of generation g *)
 Definition schedule := Z -> nat -> list nat.
 Definition serial : schedule := fun _ n => seq 0 n.
 
-Definition finish (P : params) (sch : schedule) (g : Z) (off : list indiv) (s : state) (c : Z) : state :=
+(* invalid_ind = [...]; fitnesses = toolbox.map(toolbox.evaluate, invalid_ind); zip-assign; returns nevals *)
+Definition evaluate (P : params) (sch : schedule) (g : Z) (off : list indiv) : list indiv * Z :=
   let inv := invalid_of off in
-  let res := pmap (sch g (length inv)) (evalw P) (map genome inv) in
-  let off' := assign off res in
-  mkstate off' g (hof_update (st_hof s) off') (log_record (st_log s) g (zlen inv) off')
-          (st_strat s) (st_selmem s) c (st_npcur s).
+  (assign off (pmap (sch g (length inv)) (evalw P) (map genome inv)), zlen inv).
+
+Definition commit (s : state) (g : Z) (pop' : list indiv) (h : hof) (nevals c : Z) : state :=
+  mkstate pop' g h (log_record (st_log s) g nevals pop') (st_strat s) (st_selmem s) c (st_npcur s).
 
 Definition step (P : params) (sch : schedule) (op : genop) (s : state) : state :=
   match op with
-  | GInit => finish P sch 0 (st_pop s) s (st_cur s)
+  | GInit =>
+      let (off', n) := evaluate P sch 0 (st_pop s) in
+      commit s 0 off' (hof_update (st_hof s) off') n (st_cur s)
   | GGen g =>
       let (sel, c1) := sel_tournament P (st_pop s) (length (st_pop s)) (st_cur s) in
       let (mated, c2) := mate_loop P sel c1 in
       let (mutated, c3) := mut_loop P mated c2 in
-      finish P sch g mutated s c3
+      let (off', n) := evaluate P sch g mutated in
+      commit s g off' (hof_update (st_hof s) off') n c3
+  | GPlus g =>
+      let (off, c1) := var_or P (st_pop s) (p_lambda P) (st_cur s) in
+      let (off', n) := evaluate P sch g off in
+      let (pop', c2) := sel_tournament P (st_pop s ++ off') (p_mu P) c1 in
+      commit s g pop' (hof_update (st_hof s) off') n c2
+  | GComma g =>
+      let (off, c1) := var_or P (st_pop s) (p_lambda P) (st_cur s) in
+      let (off', n) := evaluate P sch g off in
+      let (pop', c2) := sel_tournament P off' (p_mu P) c1 in
+      commit s g pop' (hof_update (st_hof s) off') n c2
   end.
 
 Definition init_state (pop0 : list (list bool)) (hofmax : Z) : state :=
   mkstate (map (fun g => mkind g None) pop0) (-1) (mkhof hofmax [] []) (mklb [] 0 []) [] [] 0 0.
 
 Definition gens_upto (n : nat) : list genop := GInit :: map (fun i => GGen (Z.of_nat i)) (seq 1 n).
+
+(* loop = 0: eaSimple shape, 1: (mu+lambda), 2: (mu,lambda) *)
+Definition gens_of (loop : Z) (n : nat) : list genop :=
+  GInit :: map (fun i => let g := Z.of_nat i in
+                         if loop =? 0 then GGen g else if loop =? 1 then GPlus g else GComma g) (seq 1 n).
 
 (* ------------------------------------------------------------------------------------------ *)
 (* save / restore                                                                             *)
